@@ -7,7 +7,7 @@ import ast
 from typing import Any, Dict, List, Optional, Tuple
 
 from .. import sym
-from ..absint import (AClass, AFunc, AObj, ARaise, Interp, Oracle, TOP, enumerate_outcomes, key_states, make_storage,
+from ..absint import (AClass, AExt, AFunc, AObj, ARaise, Interp, Oracle, TOP, enumerate_outcomes, key_states, make_storage,
                       presence_of, value_token)
 from ..cfg import Ev, Graph
 from ..engine import Ctx
@@ -989,3 +989,93 @@ def rule_case_selection_worlds(ctx: Ctx, out: Collector) -> None:
     else:
         out.ok('SW-7', cons, p.loc(m, m.node), f'{len(table)} worlds: (decider edge first / last) x labels a, b, an unknown string, None, the '
                f'decider\'s id, True', table=table)
+
+
+# ---------------------------------------------------------------------------------------------
+# SW-8: the sub-dag of the selected case, by worlds
+# ---------------------------------------------------------------------------------------------
+def rule_case_dag_worlds(ctx: Ctx, out: Collector) -> None:
+    """SW-8: the coroutine that resolves a switch runs a sub-dag that holds the selected case together with everything the case
+    depends on - also what lies upstream of the dag that reached the switch (a recurrent sub-dag starts at its start node, the
+    case may hang on the pipeline input by another route) - and nothing of the case that was not selected.  Interpreted, with
+    the graph cut as written, over a switch inside a sub-dag whose source is not the input node."""
+    p = ctx.p
+    selector, _f, case_cls = _case_selector(ctx)
+    mgr_cls = ctx.manager_class()
+    runners = []
+    for u in mgr_cls.methods.values():
+        if not u.is_async:
+            continue
+        env = FuncEnv.of(p, u)
+        if any(isinstance(c, ast.Call) and any(t[0] == 'func' and t[1] is selector for t in env.resolve_call(c)) for c in env.own_nodes()):
+            runners.append(u)
+    if len(runners) != 1:
+        raise AnalysisError(f'the coroutine that resolves a switch was not identified ({[u.name for u in runners]}) (SW-8 anchor vanished)')
+    runner = runners[0]
+    from .cc import launch_loops
+    launchers = set()
+    for fid, g in ctx.run_graphs().items():
+        for lp, region, wait in launch_loops(ctx, g):
+            launchers.add(lp.inst.unit)
+    dag_cls = _dag_class(ctx)
+    problems, table = [], {}
+    for label in ('a', 'b'):
+        def run(oracle: Oracle, label=label):
+            contents = {'node_results': {'I': ('visible', 0), 'S': ('visible', 1), 'D': ('visible', label)}}
+            mgr, storage, adag = _abstract_world(ctx, contents, dag_nodes=('S', 'D', 'SW', 'N'), dest='N')
+            adag.attrs['source'] = 'S'
+            adag.attrs['is_oneof'] = False
+            adag.attrs['is_recurrent'] = True
+            adag.attrs['is_nested_oneof'] = False
+            nodes = {'I': {}, 'S': {}, 'D': {}, 'PA': {}, 'A': {}, 'PB': {}, 'B': {}, 'N': {}, 'SW': {'is_switch': True}}
+            edges = {('I', 'S'): {}, ('S', 'D'): {}, ('S', 'PA'): {}, ('PA', 'A'): {}, ('I', 'PB'): {}, ('PB', 'B'): {},
+                     ('D', 'SW'): {'is_switch': True}, ('A', 'SW'): {'case_branch': 'a'}, ('B', 'SW'): {'case_branch': 'b'},
+                     ('SW', 'N'): {'kwarg_name': 'x'}}
+            graph = AObj(('ext', 'networkx.DiGraph'), {'nodes': nodes, 'edges': edges, 'graph': {'name': 'main'}}, tag='graph')
+            mgr.attrs['dag'].attrs['graph'] = graph
+            mgr.attrs['dag'].attrs['input_node'] = 'I'
+            mgr.attrs['dag'].attrs['output_node'] = 'N'
+            lock = AObj(('ext', 'LockManager'), {}, tag='lock-manager')
+            ext = {}
+            for nm in ('unlock_condition', 'unlock_event', 'wait_for_condition', 'wait_for_event'):
+                ext[f'world.lock.{nm}'] = lambda a, k: None
+                lock.attrs[nm] = AExt(f'world.lock.{nm}')
+            for name, (ann, default) in mgr_cls.fields.items():
+                if 'lock' in name:
+                    mgr.attrs[name] = lock
+            mgr.attrs.setdefault('_alias_run_method', 'run')
+            ran: List[Any] = []
+
+            def run_dag_stub(interp, a, k, s_):
+                sub = k.get('dag', a[0] if a else None)
+                ran.append(sub)
+                return None
+            interp = Interp(p, oracle, stubs={u.fid: run_dag_stub for u in launchers}, ext_stubs=ext)
+            kwargs = {}
+            for pn in runner.params()[1:]:
+                t_ = FuncEnv.of(p, runner).name_type(pn)
+                kwargs[pn] = adag if (t_[0] == 'class' and t_[1] is dag_cls) else 'SW'
+            interp.call_unit(runner, [], kwargs, mgr)
+            return [sorted(x.attrs['nodes']) if isinstance(x, AObj) and 'nodes' in x.attrs else repr(x) for x in ran]
+        try:
+            outs = enumerate_outcomes(run)
+        except AnalysisError as ex:
+            raise AnalysisError(f'SW-8 world (label {label}): {ex}')
+        got = [o[1] if o[0] == 'value' else f'raises {o[1]}' for o in outs]
+        table[f'decider returns {label!r} inside a sub-dag that starts at S'] = [str(x) for x in got]
+        want, other = ({'PA', 'A'}, {'PB', 'B'}) if label == 'a' else ({'PB', 'B'}, {'PA', 'A'})
+        for x in got:
+            if not (isinstance(x, list) and len(x) == 1 and isinstance(x[0], list)):
+                problems.append(f'label {label!r}: the runner launches {x} (one sub-dag expected)')
+                continue
+            have = set(x[0])
+            if not want <= have:
+                problems.append(f'label {label!r}: the sub-dag of the selected case holds {sorted(have)} - {sorted(want - have)} (the case / what it depends on) is missing')
+            if have & other:
+                problems.append(f'label {label!r}: the sub-dag holds {sorted(have & other)} of the case that was not selected')
+    cons = f'{runner.module.name}::{runner.qualname}::the sub-dag of the selected case holds the case and all it depends on [case dag worlds]'
+    if not problems:
+        out.ok('SW-8', cons, p.loc(runner, runner.node), 'two labels, the switch inside a sub-dag whose source is not the input node', table=table)
+    else:
+        out.bad('SW-8', cons, p.loc(runner, runner.node), 'the selected case cannot be computed from the sub-dag that is run for it: '
+                + '; '.join(sorted(set(problems))[:3]) + ' - the case never runs, its consumer waits for ever (or gets a stale value)', table=table)
